@@ -42,6 +42,18 @@ pub fn universe() -> Vec<(String, Option<J>)> {
         J::int(-9007199254740991),
         J::float(9007199254740991.0),
         J::int(9007199254740990),
+        // integers beyond 2^53: judged against each other (exact), zone U2 against floats
+        J::int(9007199254740992),
+        J::int(9007199254740993),
+        J::int(i64::MAX),
+        J::int(i64::MAX - 1),
+        J::int(i64::MIN),
+        // floats far beyond 2^53 (judged against floats)
+        J::float(-1e19),
+        J::float(-9.5e18),
+        J::float(1e19),
+        J::float(-1e300),
+        J::float(1.7976931348623157e308),
         J::str(""),
         J::str("a"),
         J::str("b"),
@@ -70,11 +82,36 @@ pub fn universe() -> Vec<(String, Option<J>)> {
         o(vec![("k", J::int(1))]),
         o(vec![("\"k\"", J::int(1))]),
         J::Arr(vec![o(vec![("'k'", J::int(1))])]),
+        // objects with more members than a small-size fast path would cover, incl. a
+        // quote-wrapped member name, in two member orders
+        J::Obj((0..10).map(|i| (if i == 4 { "'sku'".to_string() } else { format!("m{}", i) }, J::int(i))).collect()),
+        J::Obj((0..10).rev().map(|i| (if i == 4 { "'sku'".to_string() } else { format!("m{}", i) }, J::int(i))).collect()),
+        J::Obj((0..10).map(|i| (if i == 4 { "sku".to_string() } else { format!("m{}", i) }, J::int(i))).collect()),
+        J::Obj((0..33).map(|i| (format!("m{}", i), J::float(i as f64))).collect()),
+        J::Obj((0..33).map(|i| (format!("m{}", i), J::int(i))).collect()),
+        J::Arr((0..70).map(J::int).collect()),
+        J::Arr((0..70).map(|i| if i == 69 { J::float(69.0) } else { J::int(i) }).collect()),
+        J::Arr((0..70).map(|i| if i == 69 { J::int(68) } else { J::int(i) }).collect()),
+        // structurally equal containers nested 49 / 60 / 100 levels deep, int vs float inside
+        deep(49, J::int(1)),
+        deep(49, J::float(1.0)),
+        deep(60, J::float(1.0)),
+        deep(100, J::int(1)),
+        deep(100, J::float(1.0)),
+        deep(100, J::int(2)),
     ];
     for v in vals {
         u.push((v.to_text(), Some(v)));
     }
     u
+}
+
+fn deep(n: usize, leaf: J) -> J {
+    let mut v = J::Arr(vec![leaf, J::str("x")]);
+    for i in 0..n {
+        v = if i % 2 == 0 { J::Obj(vec![("d".into(), v), ("k".into(), J::int(1))]) } else { J::Arr(vec![J::Null, v]) };
+    }
+    v
 }
 
 #[derive(Clone, Copy, Debug, PartialEq, Eq, Hash)]
@@ -113,6 +150,8 @@ fn literal_of(v: &J, alt: usize) -> Option<Literal> {
                 "-0.0".to_string()
             } else if *f == 1e-17 {
                 "1e-17".to_string()
+            } else if f.abs() >= 1e15 {
+                format!("{:e}", f)
             } else if f.fract() == 0.0 && f.abs() < 1e15 {
                 format!("{:.1}", f)
             } else if f.fract() == 0.0 {
@@ -204,6 +243,22 @@ pub fn run(ctx: &Ctx) -> Result<Evidence, String> {
             (Some(l), Some(r)) => (l, r),
             _ => return, // no literal form for containers / Nothing
         };
+        // zone U2: a number outside the exact range meets a float (or is one)
+        {
+            let out_of_range = |v: &Option<J>| matches!(v, Some(J::Num(x)) if !x.in_exact_range());
+            let is_int = |v: &Option<J>| matches!(v, Some(J::Num(N::Int(_))));
+            let both_num = matches!((va, vb), (Some(J::Num(_)), Some(J::Num(_))));
+            let is_float = |v: &Option<J>| matches!(v, Some(J::Num(N::Float(_))));
+            if both_num && (out_of_range(va) || out_of_range(vb)) && !(is_int(va) && is_int(vb)) && !(is_float(va) && is_float(vb)) {
+                ctx.add_skipped("U2", 1);
+                return;
+            }
+            // literals beyond the range cannot be written
+            // integer literals beyond the range cannot be written (zone U2 of C06); floats can
+            if (fa == Form::Lit && out_of_range(va) && is_int(va)) || (fb == Form::Lit && out_of_range(vb) && is_int(vb)) {
+                return;
+            }
+        }
         let doc = &docs[a_i * n + b_i];
         let cmp = Basic::Cmp { lhs, op, rhs };
         let expected = compare(op, va.as_ref(), vb.as_ref());
